@@ -17,14 +17,16 @@ META = {
                    'isFilled() was asked about and the fill helpers get the same year; who-may-write: the mutable members of a processor are written '
                    'only by init() and its helpers, setZoneInfo() and the constructors, unless both invalidating events reset them (R4-writers); '
                    'ast def-use: init_for_year resets '
-                   'everything its helpers accumulate into; createAbbreviation terminates the pooled buffer at the copied length.',
+                   'everything its helpers accumulate into; createAbbreviation terminates the pooled buffer at the copied length; TimeZone values of two '
+                   'model zones sharing one processor, interpreted in full on every sequence of up to three (zone, instant) queries - two years, a '
+                   'New Year, a year outside the zone data - against a fresh processor (R7, acv/rules_C04c.py).',
     'decided': 'rebinding before every processor use; managed arms use the processor the cache returned for this zone; '
                'cache look-up returns a bound processor and its index stays in range; cache-valid flag discipline in '
                'init()/setZoneInfo()/isFilled(); no cache state outside that discipline (a memo in a look-up that a re-bind does not clear); '
                'cache key == tested year == filled year; Python cache key is not left set on a '
                'raising path and every accumulated attribute is reset on a refill; abbreviation buffers do not keep bytes of an '
                'earlier zone or year',
-    'not_decided': 'history dependence through any other channel than these mechanisms',
+    'not_decided': 'history dependence through any other channel than these mechanisms on zones unlike the model zones; sequences longer than three queries',
     'assumptions': ['clang 14 parser and template instantiation', 'CPython ast',
                     'virtual calls are resolved to the static callee ZoneProcessor::<m>; overriders are the two processors'],
 }
@@ -189,6 +191,8 @@ def run(cfg):
     for cls in ('ace_time::BasicZoneProcessor', 'ace_time::ExtendedZoneProcessor'):
         flag_rules(R, lib, cls)
     python_rules(cfg, R)
+    from . import rules_C04c
+    rules_C04c.history_rule(R, cfg, lib, 'R7')
     abbrev_buffer_rule(R, lib)
     return R
 
